@@ -426,7 +426,10 @@ def eval_cases(prop, imports, defs, cases, check_fn, shard=300, timeout=900):
         with open(path, "w") as f:
             f.write(CASES_HEADER % {"imports": imports})
             f.write(defs + "\n")
-            f.write("Definition cases := [\n  " + ";\n  ".join(chunk) + "\n].\n")
+            # the element type comes from the checker's argument type, so a shard made only of `[]`/`None`
+            # literals still type-checks
+            f.write("Definition typed_as {A : Type} (f : A -> bool) (l : list A) : list A := l.\n")
+            f.write("Definition cases := typed_as %s [\n  " % check_fn + ";\n  ".join(chunk) + "\n].\n")
             f.write("Fixpoint failing (i : nat) (l : list _) : list nat :=\n"
                     "  match l with [] => [] | c :: l' => "
                     "if %s c then failing (S i) l' else i :: failing (S i) l' end.\n" % check_fn)
